@@ -92,6 +92,83 @@ func runSeq(via, initHex, ops string) string {
 }
 
 // ---------------------------------------------------------------- generic transport
+//
+// histories on defaultTransport{obj}: obj is a buffer-like io.ReadWriter with a Close of its own
+// (recorded: defaultTransport.Close must not reach it) and optionally ReadableLen() = Len().
+
+type liveBase struct {
+	bytes.Buffer
+	closed bool
+}
+
+func (l *liveBase) Close() error { l.closed = true; return nil }
+
+type liveRL struct{ liveBase }
+
+func (l *liveRL) ReadableLen() int { return l.Len() }
+
+func runDseq(kind, initHex, ops string) string {
+	return lib.Guard(func() string {
+		init := append([]byte(nil), lib.UnHex(initHex)...)
+		var rw io.ReadWriter
+		var base *liveBase
+		switch kind {
+		case "rl":
+			o := &liveRL{}
+			rw, base = o, &o.liveBase
+		case "norl":
+			base = &liveBase{}
+			rw = base
+		default:
+			return "bad-op"
+		}
+		base.Buffer = *bytes.NewBuffer(init)
+		t := apache.NewDefaultTransport(rw)
+		dtail := func() string {
+			return fmt.Sprintf("rem=%d,len=%d,bytes=%s,closed=%v", t.RemainingBytes(), base.Len(), lib.Hex(base.Bytes()), base.closed)
+		}
+		out := []string{dtail()}
+		if ops == "-" {
+			return out[0]
+		}
+		for _, it := range strings.Split(ops, ",") {
+			f := strings.Split(it, ":")
+			var h io.ReadWriter = t
+			if len(f) == 2 && f[0][1] == 'B' {
+				h = rw
+			}
+			var res string
+			switch {
+			case len(f) == 2 && (f[0] == "wT" || f[0] == "wB"):
+				n, err := h.Write(lib.UnHex(f[1]))
+				res = fmt.Sprintf("n=%d,err=%s", n, errStr(err))
+			case len(f) == 2 && (f[0] == "rT" || f[0] == "rB"):
+				k, e := strconv.Atoi(f[1])
+				if e != nil || k < 0 || k > 1<<20 {
+					return "bad-op"
+				}
+				p := make([]byte, k)
+				n, err := h.Read(p)
+				res = fmt.Sprintf("n=%d,data=%s,err=%s", n, lib.Hex(p[:n]), errStr(err))
+			case it == "reset":
+				base.Reset()
+				res = "done"
+			case it == "close":
+				res = "err=" + errStr(t.Close())
+			case it == "flush":
+				res = "ret=" + errStr(t.Flush(context.Background()))
+			case it == "open":
+				res = "ret=" + errStr(t.Open())
+			case it == "isopen":
+				res = fmt.Sprintf("ret=%v", t.IsOpen())
+			default:
+				return "bad-op"
+			}
+			out = append(out, res+","+dtail())
+		}
+		return strings.Join(out, ";")
+	})
+}
 
 type rwPlain struct{ bytes.Buffer } // an io.ReadWriter that is neither *bytes.Buffer nor has ReadableLen
 
@@ -346,6 +423,8 @@ func runOp(f []string) (string, bool) {
 	switch {
 	case f[1] == "seq" && len(f) == 5:
 		return runSeq(f[2], f[3], f[4]), true
+	case f[1] == "dseq" && len(f) == 5:
+		return runDseq(f[2], f[3], f[4]), true
 	case f[1] == "drem" && len(f) == 3:
 		return runDrem(f[2]), true
 	case f[1] == "dtr" && len(f) == 4:
@@ -451,6 +530,13 @@ func genCases(o *lib.Opts) {
 				}
 				emit("apx", "seq", via, init, strings.Join(cur, ","))
 				em.Count("seq:exhaustive")
+				// the same history on the generic transport (Close there is a no-op)
+				kind := "rl"
+				if (len(cur)+len(init))%2 == 0 {
+					kind = "norl"
+				}
+				emit("apx", "dseq", kind, init, strings.Join(cur, ","))
+				em.Count("dseq:exhaustive")
 			}
 		}
 		if len(cur) == maxLen {
@@ -472,8 +558,18 @@ func genCases(o *lib.Opts) {
 		if big {
 			steps = r.Range(1, 10)
 		}
-		emit("apx", "seq", via, init, genSeq(r, steps, big))
+		ops := genSeq(r, steps, big)
+		emit("apx", "seq", via, init, ops)
 		em.Count("seq:random")
+		if i%2 == 0 {
+			kind := []string{"rl", "norl"}[r.Intn(2)]
+			emit("apx", "dseq", kind, init, ops)
+			em.Count("dseq:random")
+			em.Count("dseq:" + kind)
+			if strings.Contains(ops, "close") {
+				em.Count("dseq:with-close")
+			}
+		}
 		em.Count("via:" + via)
 	}
 	// 3. generic transport: no ReadableLen, and ReadableLen values <= 0, 1, large
